@@ -1,13 +1,172 @@
-"""Translator unit `ws` -> Gen/Ws.lean (C18): opcode table, control set, length markers, limits."""
+"""Translator unit `ws` -> Gen/Ws.lean (C18): opcode table, control set, length markers, limits, and the
+lock/flag SKELETON of every function that hands WebSocket frames to the transport or touches the close flag
+(server: `_wsMutex` / `closeSent`, client: `_sendMutex` / `_closeSent`): per function the ordered list of
+lock / unlock / read-flag / write-flag / make-frame / send / return / callback / call events, each tagged with the
+mutexes held at that point of the text (RAII guards tracked by brace scope)."""
 import re
 import cxxscan
 from translate import TranslateError, HEADER, read, lean_str_nat_list, lean_nat_list
 
+F = "include/iora/network/websocket_frame.hpp"
+S = "include/iora/network/websocket_server.hpp"
+C = "include/iora/network/websocket_client.hpp"
+
+SERVER_FUNCS = ["sendText", "sendBinary", "sendPing", "sendClose", "handleFrame", "handleDataFrame", "onUpgradedData"]
+CLIENT_FUNCS = ["sendText", "sendBinary", "sendPing", "sendClose", "handleFrame", "handleDataFrame", "handleData"]
+# other functions that may mention the flag / the raw send without being a send path
+SERVER_OTHER = {"isSessionActive": ["closeSent"]}
+CLIENT_OTHER = {"doConnect": ["_closeSent"], "sendRawBytes": ["sendRawBytes"]}
+
+
+def tok_re(flag, rawsend):
+    return re.compile(r"""
+       (?P<guard>std::lock_guard\s*<[^>]*>\s*(?P<gname>\w+)\s*[\({]\s*(?P<gm>_\w+)\s*[\)}])
+     | (?P<badlock>std::(?:unique_lock|scoped_lock|shared_lock)\b|\.\s*(?:unlock|lock|try_lock)\s*\()
+     | (?P<wflag>\b%(flag)s\s*=\s*(?P<wval>true|false)\b)
+     | (?P<rflag>\b%(flag)s\b(?!\s*=[^=]))
+     | (?P<make>\bWebSocketFrame::make(?P<mk>Text|Binary|Ping|Pong|Close|Continuation)\s*\()
+     | (?P<send>(?<![\w.>])%(rawsend)s\s*\()
+     | (?P<callclose>(?<![\w.>:])sendClose\s*\()
+     | (?P<callsend>(?<![\w.>:])send(?P<cs>Text|Binary|Ping)\s*\()
+     | (?P<cb>\b(?P<cbname>_on(?:Close|Error|TextMessage|BinaryMessage|Connect))\s*\()
+     | (?P<erase>\b_sessions\s*\.\s*erase\s*\()
+     | (?P<closesess>(?<![\w.>])closeSession\s*\()
+     | (?P<xchg>\b_closeEchoed\s*\.\s*exchange\s*\()
+     | (?P<pfail>\b_protocolFailed\s*\.\s*store\s*\(\s*true\s*\))
+     | (?P<rstate>\b_state\s*\.\s*load\s*\(\s*\))
+     | (?P<setstate>(?<![\w.>])setState\s*\()
+     | (?P<ret>\breturn\b)
+     | (?P<open>\{) | (?P<close>\})
+    """ % {"flag": flag, "rawsend": rawsend}, re.X)
+
+
+def skeleton(body, where, flag, rawsend, flagname):
+    ev = []
+    depth = 0
+    guards = []      # [name, mutex, depth]
+    last_make = None
+    R = tok_re(flag, rawsend)
+    for m in R.finditer(body):
+        held = ",".join(sorted({g[1] for g in guards}))
+        if m.group("open"):
+            depth += 1
+        elif m.group("close"):
+            for g in [g for g in guards if g[2] == depth]:
+                ev.append(("unlock", g[1], ",".join(sorted({h[1] for h in guards}))))
+                guards.remove(g)
+            depth -= 1
+        elif m.group("guard"):
+            guards.append([m.group("gname"), m.group("gm"), depth])
+            ev.append(("lock", m.group("gm"), held))
+        elif m.group("badlock"):
+            raise TranslateError("%s: lock primitive in a shape the scanner does not know: %r" % (where, body[max(0, m.start() - 30):m.end() + 20].strip()))
+        elif m.group("wflag"):
+            ev.append(("write", flagname + "=" + m.group("wval"), held))
+        elif m.group("rflag"):
+            ev.append(("read", flagname, held))
+        elif m.group("make"):
+            last_make = m.group("mk")
+            ev.append(("make", last_make, held))
+        elif m.group("send"):
+            if last_make is None:
+                raise TranslateError("%s: %s( without a preceding WebSocketFrame::make*" % (where, rawsend))
+            ev.append(("send", last_make, held))
+        elif m.group("callclose"):
+            ev.append(("call", "sendClose", held))
+        elif m.group("callsend"):
+            ev.append(("call", "send" + m.group("cs"), held))
+        elif m.group("cb"):
+            # `if (_onError)` tests are not invocations: an invocation is followed by an argument list that is not `)`-only test
+            pre = body[max(0, m.start() - 6):m.start()]
+            if re.search(r"if\s*\(\s*$", pre):
+                continue
+            ev.append(("callback", m.group("cbname"), held))
+        elif m.group("erase"):
+            ev.append(("erase", "_sessions", held))
+        elif m.group("closesess"):
+            ev.append(("closeSession", "", held))
+        elif m.group("xchg"):
+            ev.append(("exchange", "_closeEchoed", held))
+        elif m.group("pfail"):
+            ev.append(("write", "_protocolFailed=true", held))
+        elif m.group("rstate"):
+            ev.append(("read", "_state", held))
+        elif m.group("setstate"):
+            ev.append(("setState", "", held))
+        elif m.group("ret"):
+            ev.append(("return", "", held))
+    if guards or depth != 0:
+        # guards of the outermost scope are released at the end of the function body
+        for g in list(guards):
+            ev.append(("unlock", g[1], ",".join(sorted({h[1] for h in guards}))))
+            guards.remove(g)
+    return ev
+
+
+def member_functions(src):
+    """(name, body) of every member-function-like definition `name(...) [const] [override] {` in comment-stripped src."""
+    out = []
+    for m in re.finditer(r"\b(~?\w+)\s*\(", src):
+        name = m.group(1)
+        if name in ("if", "for", "while", "switch", "catch", "return", "sizeof", "static_cast", "reinterpret_cast", "decltype"):
+            continue
+        i = m.end() - 1
+        depth = 0
+        j = i
+        while j < len(src):
+            if src[j] == "(":
+                depth += 1
+            elif src[j] == ")":
+                depth -= 1
+                if depth == 0:
+                    break
+            j += 1
+        mm = re.match(r"\s*(?:const\s*)?(?:noexcept\s*)?(?:override\s*)?\{", src[j + 1:j + 60])
+        if not mm:
+            continue
+        k = m.start() - 1
+        while k >= 0 and src[k] in " \t\r\n":
+            k -= 1
+        prev = src[k] if k >= 0 else ";"
+        if not (prev.isalnum() or prev in "_>&*"):
+            continue
+        if re.search(r"\b(return|else|new|delete|throw)$", src[max(0, k - 10):k + 1]):
+            continue
+        b = j + 1 + mm.end() - 1
+        out.append((name, src[b + 1:cxxscan.match_brace(src, b)]))
+    return out
+
+
+def class_skeleton(src, cls, funcs, other, flag, rawsend, flagname):
+    defs = member_functions(src)
+    rows = []
+    for fn in funcs:
+        hits = [b for n, b in defs if n == fn]
+        if len(hits) != 1:
+            raise TranslateError("%s::%s: expected exactly one definition, found %d" % (cls, fn, len(hits)))
+        rows.append((fn, skeleton(hits[0], cls + "::" + fn, flag, rawsend, flagname)))
+    known = set(funcs)
+    for n, b in defs:
+        if n in known:
+            continue
+        uses = [w for w in (flagname if flagname.startswith("_") else "closeSent", rawsend) if re.search(r"(?<![\w])%s\b" % re.escape(w), b)]
+        # nested definitions (lambdas inside a known function) are part of that function's body and already scanned
+        if not uses:
+            continue
+        allowed = other.get(n, [])
+        for w in uses:
+            if w not in allowed and not any(b in kb for kn, kb in defs if kn in known and kb is not b):
+                raise TranslateError("%s::%s uses %s but is not a known send path" % (cls, n, w))
+    return rows
+
+
+def lean_skel(rows):
+    return "[\n" + ",\n".join('  ("%s", [%s])' % (w, ", ".join('("%s", "%s", "%s")' % e for e in evs)) for w, evs in rows) + "]"
+
+
 def gen(repo):
-    f = "include/iora/network/websocket_frame.hpp"
-    s = "include/iora/network/websocket_server.hpp"
-    src = read(repo, f)
-    ssrc = read(repo, s)
+    src = read(repo, F)
+    ssrc = read(repo, S)
     ops = cxxscan.enum_items(src, "WsOpcode")
     opmap = dict(ops)
     ctl_body = cxxscan.function_body(src, "isControlFrame")
@@ -26,9 +185,30 @@ def gen(repo):
     s7 = cxxscan.find_int(r"if\s*\(\s*payload\.size\(\)\s*<=\s*(\w+)\s*\)", ser, "serialize 7-bit bound")
     s16 = cxxscan.find_int(r"else\s+if\s*\(\s*payload\.size\(\)\s*<=\s*(\w+)\s*\)", ser, "serialize 16-bit bound")
     dflt = cxxscan.find_int(r"_maxFrameSize\s*\(([^)]*)\)", ssrc, "WebSocketServer default _maxFrameSize")
-    csrc = read(repo, "include/iora/network/websocket_client.hpp")
+    csrc = read(repo, C)
     cmax = cxxscan.find_int(r"kMaxFramePayload\s*=\s*([^;]+);", csrc, "WebSocketClient::kMaxFramePayload")
-    t = HEADER % (f + ", " + s)
+    # the client's limit is configurable (setMaxFrameSize) with kMaxFramePayload as its default, and it is the limit handed to parse
+    if not re.search(r"_maxFrameSize\s*\{\s*kMaxFramePayload\s*\}", csrc):
+        raise TranslateError("WebSocketClient::_maxFrameSize is not initialised from kMaxFramePayload")
+    hd = cxxscan.function_body(csrc, "handleData")
+    if not re.search(r"WebSocketFrame::parse\s*\(\s*view\s*,\s*consumed\s*,\s*status\s*,\s*_maxFrameSize\.load\(\)\s*\)", hd):
+        raise TranslateError("WebSocketClient::handleData does not pass _maxFrameSize to WebSocketFrame::parse")
+    # the upgrade response header is bounded while it is incomplete (FC18d)
+    cupg = cxxscan.find_int(r"kMaxUpgradeResponse\s*=\s*([^;]+);", csrc, "WebSocketClient::kMaxUpgradeResponse")
+    if not re.search(r"if\s*\(\s*headerEnd\s*==\s*std::string::npos\s*\)\s*\{\s*if\s*\(\s*localBuffer\.size\(\)\s*>\s*kMaxUpgradeResponse\s*\)", hd):
+        raise TranslateError("WebSocketClient::handleData: incomplete upgrade response is not bounded by kMaxUpgradeResponse")
+    # control-frame guards of the send API (FC18c): ping payload bound, close reason bound
+    mkc = cxxscan.function_body(src, "makeClose")
+    reason_max = cxxscan.find_int(r"if\s*\(\s*n\s*>\s*(\w+)\s*\)\s*\{\s*n\s*=\s*\1\s*;", mkc, "makeClose reason bound")
+    if not re.search(r"while\s*\(\s*n\s*>\s*0\s*&&\s*\(\s*static_cast<unsigned char>\(reason\[n\]\)\s*&\s*0xC0\s*\)\s*==\s*0x80\s*\)\s*\{\s*--n;\s*\}", mkc):
+        raise TranslateError("makeClose: UTF-8 boundary back-off not in the known shape")
+    sping = cxxscan.function_body(ssrc, "sendPing")
+    cping = cxxscan.function_body(csrc, "sendPing")
+    sp = cxxscan.find_int(r"^\s*if\s*\(\s*payload\.size\(\)\s*>\s*(\w+)\s*\)\s*\{?\s*return\s*;", sping, "server sendPing payload guard")
+    cp = cxxscan.find_int(r"^\s*if\s*\(\s*payload\.size\(\)\s*>\s*(\w+)\s*\)\s*\{?\s*return\s*;", cping, "client sendPing payload guard")
+    srows = class_skeleton(ssrc, "WebSocketServer", SERVER_FUNCS, SERVER_OTHER, r"(?:\w+(?:->|\.))*closeSent", "sendRaw", "closeSent")
+    crows = class_skeleton(csrc, "WebSocketClient", CLIENT_FUNCS, CLIENT_OTHER, r"_closeSent", "sendRawBytes", "_closeSent")
+    t = HEADER % (F + ", " + S + ", " + C)
     t += "namespace Iora.Gen.Ws\n"
     t += "/-- `enum class WsOpcode` enumerators (name, value) -/\n"
     t += "def opcodes : List (String × Nat) := %s\n" % lean_str_nat_list(ops)
@@ -36,13 +216,19 @@ def gen(repo):
     t += "def controlOpcodes : List Nat := %s\n" % lean_nat_list(ctl)
     t += "/-- `WebSocketServer::_maxFrameSize` constructor default -/\n"
     t += "def serverDefaultMaxFrameSize : Nat := %d\n" % dflt
-    t += "/-- `WebSocketClient::kMaxFramePayload` -/\n"
+    t += "/-- `WebSocketClient::kMaxFramePayload` (default of the client's `_maxFrameSize`, which is what `handleData` hands to `parse`) -/\n"
     t += "def clientMaxFramePayload : Nat := %d\n" % cmax
+    t += "/-- `WebSocketClient::kMaxUpgradeResponse`: longest incomplete upgrade response header that is kept -/\n"
+    t += "def clientMaxUpgradeResponse : Nat := %d\n" % cupg
     t += "/-- literals in `WebSocketFrame::parse`: largest control payload, 16-bit marker, 64-bit marker -/\n"
     t += "def maxControlPayload : Nat := %d\ndef len16Marker : Nat := %d\ndef len64Marker : Nat := %d\n" % (max_ctl, m16, m64)
     t += "/-- literals in `WebSocketFrame::serialize`: largest 7-bit length, largest 16-bit length -/\n"
     t += "def serMax7 : Nat := %d\ndef serMax16 : Nat := %d\n" % (s7, s16)
+    t += "/-- `makeClose`: longest reason kept; `sendPing` (server, client): longest payload accepted -/\n"
+    t += "def closeReasonMax : Nat := %d\ndef serverPingMax : Nat := %d\ndef clientPingMax : Nat := %d\n" % (reason_max, sp, cp)
+    t += "/-- per function, in textual order: (event, object, mutexes held). Events: lock/unlock (RAII scope), read/write of the close\n"
+    t += "flag, make (frame factory), send (raw send; object = kind of the frame made last), call, callback, erase, return -/\n"
+    t += "def serverSkeleton : List (String × List (String × String × String)) := %s\n" % lean_skel(srows)
+    t += "def clientSkeleton : List (String × List (String × String × String)) := %s\n" % lean_skel(crows)
     t += "end Iora.Gen.Ws\n"
     return "IoraModel/Gen/Ws.lean", t
-
-
